@@ -109,3 +109,34 @@ def replay_lock(op):
     return dict(reproduced=bool(touched), log=log,
                 what="the file b/x, locked by another process, was %s by `fclones %s`" %
                      ("changed/removed" if touched else "left alone", " ".join(OPS[op])))
+
+
+def replay_transform_filter():
+    """C06 on the real binary: `group --transform cat` must report a class iff the replication filter holds."""
+    exe, msg = build_binary()
+    if not exe:
+        return dict(reproduced=None, log="could not build the real binary: " + msg)
+    d = common.mkscratch("replay-c06")
+    tree = os.path.join(d, "tree")
+    os.makedirs(tree)
+    for name, data in (("a", b"aaa\n"), ("b", b"bbb\n"), ("c", b"aaa\n")):
+        with open(os.path.join(tree, name), "wb") as f:
+            f.write(data)
+    logs = []
+    bad = []
+    for extra, ok_size in (([], lambda n: n > 1), (["--unique"], lambda n: n < 2)):
+        for transform in ([], ["--transform", "cat"]):
+            args = [exe, "group", tree, "-f", "json"] + extra + transform
+            p = subprocess.run(args, cwd=d, stdout=subprocess.PIPE, stderr=subprocess.DEVNULL, text=True, timeout=120)
+            try:
+                import json as _json
+                groups = _json.loads(p.stdout).get("groups", [])
+                sizes = [len(g["files"]) for g in groups]
+            except Exception as e:
+                logs.append("%s: unparsable output (%s)" % (" ".join(args[1:]), e))
+                continue
+            logs.append("%s -> group sizes %s" % (" ".join(args[1:]), sizes))
+            for n in sizes:
+                if not ok_size(n):
+                    bad.append("%s reports a class of %d file(s)" % (" ".join(args[1:]), n))
+    return dict(reproduced=bool(bad), log="\n".join(logs), what="; ".join(bad) or "every reported class satisfies the filter")
